@@ -71,23 +71,44 @@ func (c *Ctx) fiftHex() {
 		}
 	}
 	c.check(okHex, R, "whole nibbles are printed directly", f.Pos(), "hex.EncodeToString under len%4 == 0", "ToFiftHex prints the buffer as plain hex digits on a path that is not the len%4 == 0 one: a bit string that ends inside a nibble loses its completion tag (or an aligned one gains a spurious one)")
-	var wTrue, wFalse []*ssa.Call
-	for _, cl := range callsTo(f, bocPath+".BitString.WriteBit") {
-		if b, ok := constBool(cl.Call.Args[1]); ok {
+	// the padding may be written in ToFiftHex or in an unexported helper it calls on the padded side
+	// (padToHexDigit()): a call in the helper stands on the side of the helper's call site
+	type hostedCall struct {
+		cl   *ssa.Call
+		host *ssa.Function
+		at   *ssa.BasicBlock
+	}
+	collect := func(q string) []hostedCall {
+		var out []hostedCall
+		for _, cl := range callsTo(f, q) {
+			out = append(out, hostedCall{cl, f, cl.Block()})
+		}
+		for _, site := range callsIn(f) {
+			if h := plainHelper(site.Common().StaticCallee()); h != nil && h != f {
+				for _, cl := range callsTo(h, q) {
+					out = append(out, hostedCall{cl, h, site.Block()})
+				}
+			}
+		}
+		return out
+	}
+	var wTrue, wFalse []hostedCall
+	for _, hc := range collect(bocPath + ".BitString.WriteBit") {
+		if b, ok := constBool(hc.cl.Call.Args[1]); ok {
 			if b {
-				wTrue = append(wTrue, cl)
+				wTrue = append(wTrue, hc)
 			} else {
-				wFalse = append(wFalse, cl)
+				wFalse = append(wFalse, hc)
 			}
 		}
 	}
-	okTag := len(wTrue) == 1 && len(wFalse) == 1
+	okTag := len(wTrue) == 1 && len(wFalse) == 1 && wTrue[0].host == wFalse[0].host
 	if okTag {
-		t, z := wTrue[0], wFalse[0]
-		okTag = side(t.Block()) == "padded" && !inLoop(t.Block()) && inLoop(z.Block()) && t.Block().Dominates(z.Block())
+		t, z := wTrue[0].cl, wFalse[0].cl
+		okTag = side(wTrue[0].at) == "padded" && !inLoop(t.Block()) && inLoop(z.Block()) && t.Block().Dominates(z.Block())
 		// the zero padding runs while the copy's length is not a multiple of 4
 		okLoop := false
-		for _, ft := range factsAt(f, z.Block()) {
+		for _, ft := range factsAt(wFalse[0].host, z.Block()) {
 			if !inLoop(ft.Edge.From) {
 				continue // the entry test, not the loop's
 			}
@@ -100,7 +121,8 @@ func (c *Ctx) fiftHex() {
 	c.check(okTag, R, "completion tag: one 1, then zeros while len%4 != 0", f.Pos(), "WriteBit(true) once on the padded side, WriteBit(false) in a loop guarded by len%4 != 0", "ToFiftHex no longer pads a bit string that ends inside a nibble with a single 1 followed by zeros up to the nibble boundary")
 	// the room for the padding: Grow(4 - len%4) before the first padding write
 	okGrow := false
-	for _, cl := range callsTo(f, bocPath+".BitString.Grow") {
+	for _, hc := range collect(bocPath + ".BitString.Grow") {
+		cl := hc.cl
 		if bo, ok := cl.Call.Args[1].(*ssa.BinOp); ok && bo.Op == token.SUB {
 			if k, ok := constInt(bo.X); ok && k >= 4 {
 				if in, ok := bo.Y.(*ssa.BinOp); ok {
